@@ -29,9 +29,9 @@ void AttributeEvent::read(AbstractFile & is) {
 
 void AttributeEvent::write(AbstractFile & os) {
     /* pre processing */
-    mainAttributableObjectPathLength = static_cast<uint16_t>(mainAttributableObjectPath.size());
+    mainAttributableObjectPathLength = static_cast<uint32_t>(mainAttributableObjectPath.size());
     memberPathLength = static_cast<uint32_t>(memberPath.size());
-    attributeDefinitionPathLength = static_cast<uint16_t>(attributeDefinitionPath.size());
+    attributeDefinitionPathLength = static_cast<uint32_t>(attributeDefinitionPath.size());
     dataLength = static_cast<uint32_t>(data.size());
 
     ObjectHeader::write(os);
